@@ -162,7 +162,7 @@ def rule_roles(ctx: Ctx, res: Result) -> dict[str, str] | None:
         roles["import"] = ks[0]
     else:
         problems.append(f"import_modules_that()/be_imported_by_modules_that() differ in {ks or 'no flag'}")
-    ks = [k for k, val in w["modules_that"].items() if val == Const(True) and imp.get(k) == Const(False)]
+    ks = [k for k, val in w["modules_that"].items() if isinstance(val, Const) and isinstance(imp.get(k), Const) and imp[k] != val and rev.get(k) == imp[k]]
     if len(ks) == 1:
         roles["side"] = ks[0]
     else:
@@ -178,20 +178,44 @@ def rule_roles(ctx: Ctx, res: Result) -> dict[str, str] | None:
     else:
         problems.append(f"import_anything() additionally sets {ks or 'nothing'}")
     if "side" in roles:
-        for role, flag in (("subject", True), ("object", False)):
-            def init(sym: S.Sym, st: S.State, flag=flag) -> None:
-                st.store[roles["side"]] = Const(flag)
+        for role, side_val in (("subject", w["modules_that"][roles["side"]]), ("object", imp[roles["side"]])):
+            def init(sym: S.Sym, st: S.State, side_val=side_val) -> None:
+                st.store[roles["side"]] = side_val
 
             ww = writes("are_named", init)
             ks = [k for k, val in ww.items() if k != roles["side"] and not isinstance(val, Const)]
             if len(ks) == 1:
                 roles[role] = ks[0]
             else:
-                problems.append(f"are_named() with the {'subject' if flag else 'object'} side selected stores into {ks or 'nothing'}")
+                problems.append(f"are_named() with the {role} side selected stores into {ks or 'nothing'}")
     if problems:
         res.undecide("C13.R7", f"{rule.module.relpath}::Rule::fluent API roles", "cannot tell which fields the fluent API writes: " + "; ".join(problems), rule.module.relpath)
         return None
     return roles
+
+
+def initial_formula(ctx: Ctx, ci: ClassInfo, k: str) -> Formula | None:
+    """Formula over the atoms of attribute `k` that holds while `k` still has the value the constructor gave it
+    (None -> `k is None`, other falsy constants -> `not bool(k)`); None when the initial value is not such a constant."""
+    init = ctx.repo.lookup_method(ci, "__init__")
+    if init is None:
+        return None
+    cache = ctx.__dict__.setdefault("_init_runs", {})
+    if init.fq not in cache:
+        cache[init.fq] = ctx.run(init, stop=None)
+    sym = cache[init.fq]
+    rets = [o for o in sym.outcomes if o.kind == "return"]
+    if len(rets) != 1:
+        return None
+    v = current_value(sym, rets[0].store or {}, k)
+    if isinstance(v, Const) and v.value is None:
+        return atom(f"{k} is None")
+    if isinstance(v, Const) and not v.value:
+        return f_not(atom(f"bool({k})"))
+    cs = (rets[0].store or {}).get(key(v)) if isinstance(v, Coll) else None
+    if cs is not None and cs.exact and not cs.items:
+        return f_not(atom(f"bool({k})"))
+    return None
 
 
 def current_value(sym: S.Sym, store: dict, k: str) -> S.Val:
@@ -215,10 +239,9 @@ def rewritten_under(sym: S.Sym, o: S.Outcome, want: Formula, keys: list[str]) ->
     return None
 
 
-def run_rule_pipeline(ctx: Ctx, res: Result) -> None:
+def run_rule_pipeline(ctx: Ctx, res: Result, roles: dict[str, str] | None) -> None:
     repo = ctx.repo
     rule = ctx.public_class("Rule")
-    roles = rule_roles(ctx, res)
     if roles is None:
         return
     aa = ctx.method(rule, "assert_applies")
@@ -229,9 +252,15 @@ def run_rule_pipeline(ctx: Ctx, res: Result) -> None:
         return
     b = lambda r: atom(f"bool({roles[r]})")  # noqa: E731
     verb = f_or([b(v) for v in FLUENT_VERBS])
+    init = {r: initial_formula(ctx, rule, roles[r]) for r in ("import", "subject", "object", *FLUENT_VERBS, "anything")}
+    unknown = [r for r, f in init.items() if f is None]
+    if unknown:
+        res.undecide("C13.R7", f"{aa.relpath}::Rule::initial configuration", f"Rule.__init__ does not give {', '.join(unknown)} a recognisable empty initial value (None / False / empty)", where(aa, aa.node))
+        return
+    no_verb = f_and([init[v] for v in FLUENT_VERBS])
     wants: list[tuple[str, str, Formula, list[str]]] = [
-        ("C13.R7", "missing verb", f_not(verb), [roles[v] for v in FLUENT_VERBS]),
-        ("C13.R7", "missing import type", atom(f"{roles['import']} is None"), [roles["import"]]),
+        ("C13.R7", "missing verb", no_verb, [roles[v] for v in FLUENT_VERBS]),
+        ("C13.R7", "missing import type", init["import"], [roles["import"]]),
         ("C13.R7", "missing subject", f_and([f_not(b("anything")), f_not(b("subject"))]), [roles["subject"]]),
         ("C13.R7", "missing object", f_and([f_not(b("anything")), f_not(b("object"))]), [roles["object"]]),
         ("C13.R1", "'anything' with a verb other than should_not", f_and([b("anything"), f_not(b("should_not"))]), [roles["anything"], roles["should_not"]]),
@@ -325,7 +354,10 @@ def run_side_guard(ctx: Ctx, res: Result, roles: dict[str, str] | None) -> None:
     if roles is None:
         return
     rule = ctx.public_class("Rule")
-    want = atom(f"{roles['side']} is None")
+    want = initial_formula(ctx, rule, roles["side"])
+    if want is None:
+        res.undecide("C13.R2", f"{rule.module.relpath}::Rule::side marker", "Rule.__init__ does not give the subject/object marker a recognisable empty initial value", rule.module.relpath)
+        return
     for name in MODULE_SPECIFIERS:
         m = ctx.repo.lookup_method(rule, name)
         if m is None or m.is_abstract:
@@ -367,7 +399,8 @@ def run_layer_rule(ctx: Ctx, res: Result) -> None:
         res.undecide("C13.R2", f"{lr.module.relpath}::LayerRule::state roles", f"cannot tell where based_on() stores the architecture ({arch_keys}) / layers_that() the module rule ({rule_keys})", lr.module.relpath)
         return
     k_arch, k_rule = arch_keys[0], rule_keys[0]
-    no_rule, no_arch = atom(f"{k_rule} is None"), atom(f"{k_arch} is None")
+    no_rule = initial_formula(ctx, lr, k_rule) or atom(f"{k_rule} is None")
+    no_arch = initial_formula(ctx, lr, k_arch) or atom(f"{k_arch} is None")
     n = 0
     for name, m in sorted(lr.methods.items()):
         if name.startswith("_") or m.is_property or m.is_abstract:
@@ -448,7 +481,7 @@ def run_diagram_rule(ctx: Ctx, res: Result) -> None:
     if not any(o.kind == "verdict" for o in bad):
         res.undecide("C13.R2", repo.key(aa, "evaluation point"), "no call into an AssertionError site is reachable from DiagramRule.assert_applies", where(aa, aa.node))
         return
-    want = atom(f"{k_file} is None")
+    want = initial_formula(ctx, dr, k_file) or atom(f"{k_file} is None")
     hits = [o for o in bad if consistent(o, want)]
     # reading the diagram without a path is no configuration error either: the check has to come before the file is opened
     opened = [ev for ev in sym.events if ev.kind == "call" and ev.name == "open" and sat(f_and([ev.cond, want]))]
@@ -952,8 +985,9 @@ def run(repo: Repo) -> Result:
         "the symbolic executor over-approximates path conditions (unknown constructs become free atoms / havoc)",
     ]
     ctx = Ctx(repo)
-    run_rule_pipeline(ctx, res)
-    run_side_guard(ctx, res, rule_roles(ctx, Result("C13")))
+    roles = rule_roles(ctx, res)
+    run_rule_pipeline(ctx, res, roles)
+    run_side_guard(ctx, res, roles)
     run_layer_rule(ctx, res)
     run_diagram_rule(ctx, res)
     run_entry_point(ctx, res)
